@@ -1311,6 +1311,8 @@ pub fn c09_key(ast: Option<&Ast>) -> Option<&'static str> {
 }
 
 fn c09_paths(q: &Queried, is_match: &dyn Fn(&str) -> Option<bool>, paths: &[String], alphabet: &[char], ast: Option<&Ast>, ctx: &Ctx, rpt: &mut Report, rng: &mut Rng) {
+    // A combinator with an empty pattern among its members (listed finding).
+    let has_empty_member = q.is_any && q.label.get("any").and_then(|a| a.as_array()).map_or(false, |a| a.iter().any(|e| e.as_str() == Some("")));
     if q.exhaustive != Some(When::Always) {
         rpt.bucket("verdict:not-always");
         return;
@@ -1356,7 +1358,10 @@ fn c09_paths(q: &Queried, is_match: &dyn Fn(&str) -> Option<bool>, paths: &[Stri
             rpt.evaluations += 1;
             pairs += 1;
             if !got {
-                let key = if (p.is_empty() || p == "/") && is_match(&child) == Some(false) {
+                let key = if has_empty_member {
+                    Some("empty-pattern-in-combinator-hides-earlier-patterns-from-the-exhaustiveness-fold")
+                }
+                else if (p.is_empty() || p == "/") && is_match(&child) == Some(false) {
                     Some("matches-empty-path-but-not-its-children")
                 }
                 else {
